@@ -615,7 +615,11 @@ func (st *c09State) refreshList(r *sysRun) {
 				st.cursorLoose = true
 			}
 		} else {
+			// nothing was listed: fzf attaches the cursor to the first item of whichever list comes first
 			m.cy = 0
+			if len(m.list) > 1 {
+				st.cursorLoose = true
+			}
 		}
 	}
 	if m.cy > len(m.list)-1 {
@@ -639,6 +643,7 @@ func c09Settle(r *sysRun, st *c09State, busy bool, final bool) {
 	// query changed: cursor and selection actions refer to the list of the model's own query.
 	settles := 0
 	burstQueryChanged := false
+	burstFed := false
 	queryChanges := 0
 	for i := range r.plan.Events {
 		ev := r.plan.Events[i]
@@ -676,9 +681,13 @@ func c09Settle(r *sysRun, st *c09State, busy bool, final bool) {
 				}
 				m.sel = kept
 				st.refreshList(r)
-				if st.tail > 0 {
+				if st.tail > 0 || burstQueryChanged {
+					// trimming, or a query change racing with the arrival of the input: the list went
+					// through states that depend on timing, and the cursor was clamped (or, with --track,
+					// attached to an item) according to them
 					st.cursorLoose = true
 				}
+				burstFed = true
 				// an action in the same burst sees whatever part of the new input had been read by then
 				burstQueryChanged = true
 				c.count("probe.feed_modelled", 1)
@@ -724,6 +733,9 @@ func c09Settle(r *sysRun, st *c09State, busy bool, final bool) {
 			st.refreshList(r)
 			burstQueryChanged = true
 			queryChanges++
+			if burstFed {
+				st.cursorLoose = true
+			}
 		}
 	}
 	if !st.listValid {
